@@ -61,9 +61,12 @@ type Alt struct {
 }
 
 type Grammar struct {
-	Lex    []LexDef `json:"lex,omitempty"`
-	Header string   `json:"header,omitempty"` // text between << and >> before the first production
-	Alts   []Alt    `json:"alts,omitempty"`   // alternatives in declaration order; equal heads are grouped when printed
+	// Spelled, when set, is the text handed to the generator instead of the canonical rendering (the same grammar with
+	// its character literals spelled differently); the reference models still read the AST
+	Spelled string   `json:"spelled,omitempty"`
+	Lex     []LexDef `json:"lex,omitempty"`
+	Header  string   `json:"header,omitempty"` // text between << and >> before the first production
+	Alts    []Alt    `json:"alts,omitempty"`   // alternatives in declaration order; equal heads are grouped when printed
 }
 
 func RuneLit(r rune) string {
@@ -133,6 +136,9 @@ func (s Sym) String() string {
 
 // Text renders the grammar as gocc BNF (canonical spelling: one space between tokens, one production per line).
 func (g *Grammar) Text() string {
+	if g.Spelled != "" {
+		return g.Spelled
+	}
 	var b strings.Builder
 	for _, d := range g.Lex {
 		fmt.Fprintf(&b, "%s : %s ;\n", d.Name, d.P.String())
